@@ -12,7 +12,7 @@ pub const RULE: &str = "generated epochs in nine scales within +-10 000 years of
 pub const ASSUMPTIONS: &[&str] = &[
     "for ET/TDB source epochs the TAI/UTC/TT counts are taken from the library's own to_time_scale (accuracy of that conversion is C07's); for uniform scales and UTC they come from the model",
     "float tolerance: 4 ulp of the value, or of one second's worth in that unit for smaller values",
-    "constructor round trips: |delta| <= 4 ulp(max(|x|, |c|)) + 1 ns, c the view's shift constant in that unit (the constructor subtracts c in f64)",
+    "constructor round trips: |delta| <= 4 ulp(max(|x|, |c|)) + 1 ns, c the shift constant in that unit for the JD/MJD views (whose constructors subtract c in f64) and 0 for the UNIX and seconds/days views (float precision of the value itself)",
     "from_jde_et / from_jde_tdb are documented as approximate (constant 32.184935 s): round trip within 4e-8 days",
 ];
 
@@ -159,6 +159,8 @@ fn ctor_strategy() -> BS<Ctor> {
         (2, (-SPAN_D..=SPAN_D).prop_map(|d| d as f64 + 0.5).boxed()),
         (3, (-SPAN_D..=SPAN_D, any::<u64>()).prop_map(|(d, r)| d as f64 + (r >> 11) as f64 / (1u64 << 53) as f64).boxed()),
         (1, (-100i64..=100, 0u32..86_400).prop_map(|(d, s)| d as f64 + s as f64 / 86_400.0).boxed()),
+        // non-integer values close to the UNIX reference (1970 = day 25567 from 1900)
+        (2, (25_567i64 - 3_000..25_567 + 3_000, any::<u64>()).prop_map(|(d, r)| d as f64 + (r >> 11) as f64 / (1u64 << 53) as f64).boxed()),
         (1, (20_000i64..50_000, any::<u64>()).prop_map(|(d, r)| d as f64 + (r >> 11) as f64 / (1u64 << 53) as f64).boxed()),
     ]);
     (days, 0u8..33, -1i64..=1)
@@ -193,9 +195,9 @@ fn ctor_oracle(c: &Ctor) -> Verdict {
         3 => (lib!(Epoch::from_jde_utc(x).to_jde_utc_days()), 2_415_020.5, 1.0 / NS_D as f64, 0.0),
         4 => (lib!(Epoch::from_mjd_in_time_scale(x, TimeScale::TT).to_mjd_tt_days()), 15_020.0, 1.0 / NS_D as f64, 0.0),
         5 => (lib!(Epoch::from_jde_in_time_scale(x, TimeScale::TT).to_jde_tt_days()), 2_415_020.5, 1.0 / NS_D as f64, 0.0),
-        6 => (lib!(Epoch::from_unix_seconds(x).to_unix_seconds()), 2_208_988_800.0, 1e-9, 0.0),
-        7 => (lib!(Epoch::from_unix_milliseconds(x).to_unix_milliseconds()), 2_208_988_800_000.0, 1e-6, 0.0),
-        8 => (lib!(Epoch::from_unix_duration(mk(x as i128)).to_unix(Unit::Nanosecond)), 2.2089888e18, 1.0, 0.0),
+        6 => (lib!(Epoch::from_unix_seconds(x).to_unix_seconds()), 0.0, 1e-9, 0.0),
+        7 => (lib!(Epoch::from_unix_milliseconds(x).to_unix_milliseconds()), 0.0, 1e-6, 0.0),
+        8 => (lib!(Epoch::from_unix_duration(mk(x as i128)).to_unix(Unit::Nanosecond)), 0.0, 1.0, 0.0),
         9 => (lib!(Epoch::from_jde_et(x).to_jde_et_days()), 2_415_020.5, 1.0 / NS_D as f64, 4e-8),
         10 => (lib!(Epoch::from_jde_tdb(x).to_jde_tdb_days()), 2_415_020.5, 1.0 / NS_D as f64, 4e-8),
         11 => {
